@@ -21,7 +21,7 @@ CLAIMS = {
               "grammar, after conflict resolution. Tie A: model vs real LRParser on every input (outcome, tree, spans, layout). "
               "Oracle on implementation output: tree validity, leaves = tokens of the consumed input, partial-parse conservativity."),
         design_ref="5/C02",
-        note=TRUST + "; table types LALR/LALR_PAGER; partial-parse conservativity is decided by oracle+correspondence only (no theorem yet)",
+        note=TRUST + "; table types LALR/LALR_PAGER; C02_partial_conservative: parse with partial parsing off returning ok implies the same result with it on (any table, any lexer)",
         technique="Lean 4 proof over executable model + verified table certificate + differential correspondence"),
     "C04": dict(
         category="proof",
@@ -40,17 +40,22 @@ CLAIMS = {
         technique="Lean 4 verified certificate checker (canonical LR(1) cover) run on the real table"),
     "C14": dict(
         category="proof",
-        text=("PARTIAL. Proved (C14_roundtrip): for the Lean model of LRParser::parse with the default string lexer, whitespace skipping "
+        text=("Proved for the LR parser: C14_roundtrip_layout (user Layout rule: leaves with their stored layout + trailing layout = "
+              "consumed input, under the EXECUTABLE per-input hypothesis LayoutCert.check = static && notToken && idempotent && failStays, "
+              "evaluated by the driver for every Layout input: holds on all 39857 generated ws/comments/nested inputs; where it is false "
+              "the property IS false of the code: counterexample theorems for the recorded findings C14-N1, C14-N2), "
+              "C14_layout_is_whitespace, C14_layout_is_layout_sentence (stored layout = yield of a derivation of the Layout nonterminal, "
+              "tiled without gaps), C14_insertion_invariant(_path) (no Layout rule: an input aligned with the first along the shifted "
+              "tokens is accepted with the same tree shape). And (C14_roundtrip): for the Lean model of LRParser::parse with the default string lexer, whitespace skipping "
               "on or off, any in-range recognizers, partial parsing on/off and every input, the leaves of the returned tree with their "
               "stored layout followed by the layout skipped before the end concatenate to exactly the consumed input; invariant over "
               "Context.layout_ahead, its preservation across re-lexing after a reduce, and the idempotence of whitespace skipping; "
-              "certificates Cert.noShiftStop and Cert.structural run on the real table. Decided by oracle + correspondence only: the same "
-              "identity under a user Layout rule (whitespace / line comments / nested block comments), that the stored layout is "
-              "whitespace resp. a Layout sentence, and that inserting layout between tokens never changes the tree. Tie A: layout and "
+              "certificates Cert.noShiftStop and Cert.structural run on the real table. PARTIAL - decided by oracle + correspondence only: "
+              "insertion invariance under a Layout rule, and the GLR parser's trees. Tie A: layout and "
               "value slices of every leaf from the real parser vs the model; oracle: byte-level reconstruction. Two defects found by the "
               "oracle are repaired by fix: commits (stale layout_ahead after a shift; repeated layout parses)."),
         design_ref="5/C14",
-        note=TRUST + "; Layout-rule round trip is not a theorem (the layout sub-parser re-entering after a reduce needs the LayoutNotToken hypothesis)",
+        note=TRUST + "; LayoutCert.check is a hypothesis evaluated per input, not derived from the grammar",
         technique="Lean 4 invariant proof (round trip) over executable byte-level model + differential correspondence + reconstruction oracle"),
     "C15": dict(
         category="proof",
@@ -258,8 +263,10 @@ CLAIMS = {
               "whitespace skipping or Layout rule, partial parsing on/off and every input, every node of the tree returned by the "
               "Lean model of LRParser::parse satisfies Tree.SpanOk (token value = input slice at its span, both ends = computed "
               "positions; nonterminal span = first child start .. last child end; empty nonterminal zero-width), given the executable "
-              "certificate Cert.noShiftStop on the real table. PARTIAL: ordering of token spans / betweenness of empty nodes and the "
-              "whole GLR half are decided by oracle + correspondence only (known finding F20 for ambiguous GLR forests). Tie A: model "
+              "certificate Cert.noShiftStop on the real table; C13_lr_spans_ordered / C13_children_ordered / C13_neighbours: at every node "
+              "the children's spans are ascending, disjoint and inside the node's span, so an empty nonterminal lies between its "
+              "neighbours (true since fix 8db9d03; the defect it repaired, C13-N1, was found by this check). PARTIAL: the GLR half is "
+              "decided by oracle + GLR engine correspondence only (known finding F20 for ambiguous GLR forests). Tie A: model "
               "vs real LRParser on every node (span, line/col, value slice, layout), multi-line / CRLF / multi-byte inputs; oracle "
               "recomputes everything from the raw bytes for LR and for every tree of GLR forests."),
         design_ref="5/C13",
